@@ -303,6 +303,10 @@ class Ref3D(object):
             elif (b[0] == 'lower' and diff < 0) or (b[0] == 'upper' and diff > 0):
                 sure += pen
         sabs = sum(float(w) * abs(float(r)) * abs(float(kk)) for w, r, kk in fit)
+        # the residuals themselves are differences of log fluxes of order |log F|: each carries an absolute rounding error of
+        # a few eps x (|log data| + |log model|) however small it is, which A_V = sum(w k r) / sum(w k^2) amplifies by 1/|k|
+        sabs += 1e-4 * sum(float(Fr(b[2])) * abs(kk) * (abs(b[1]) + abs(L))
+                           for b, L, kk in zip(self.bands, logm, self.k) if b[0] == 'fit')
         cond_slack = 0.
         for (bb, L, kk, dL) in zip(self.bands, logm, self.k, self.dlog[i]):
             if bb[0] == 'fit' and dL > 0.:
